@@ -314,3 +314,52 @@ Example C07_merge_cb_nonvacuous :
   /\ map (fun o => snd o) (run mp_cfg tl0 mp_h) =
        ([ [0]; [0; 1]; [0; 1; 2]; [0; 1; 2]; [0; 1; 2]; [1; 2; 3]; [1; 2; 3]; [2; 3]; [2]; [2] ])%nat.
 Proof. vm_compute. repeat split. Qed.
+
+(** * Globals whose values are patterns (model: Sched/GlobalsPat.v, lemmas Sched/GlobalsPatProofs.v) *)
+(* Globals.set stores unconditionally; Globals.get / PGlobals resolve a stored Pattern object through Pattern.value (its next
+   value); the object is shared by everybody who reads it, under whatever name. *)
+From Isobar Require Import Sched.GlobalsPat Sched.GlobalsPatProofs.
+
+(* A GLOBALS READ RETURNS THE LATEST VALUE SET OR THE DEFAULT - for every program of sets and reads, whatever kinds of values
+   were stored under the name before and after (number over pattern, pattern over number, pattern over pattern, the same
+   value again): a stored number is returned as it is; a stored pattern object is asked for its next value *)
+Theorem C07_globals_pattern_latest : forall p k d objs,
+  fst (gpread k d (gp_state (gstore0 objs) p)) =
+    match latest k p with
+    | None => GVal d
+    | Some (GScalar v) => GVal v
+    | Some (GPat q) => fst (pnext q (gs_objs (gp_state (gstore0 objs) p)))
+    end.
+Proof. exact read_latest. Qed.
+(* a set always takes effect: the very next read of that name sees the new value; other names are not touched; after any
+   program the value stored under a name is the one of the last set of that name *)
+Theorem C07_globals_set_takes_effect : forall k v d st,
+  fst (gpread k d (gpset k v st)) = match v with GScalar x => GVal x | GPat q => fst (pnext q (gs_objs st)) end
+  /\ forall k', k <> k' -> glookup k' (gs_map (gpset k v st)) = glookup k' (gs_map st).
+Proof. intros k v d st. split; [apply set_then_read|intros k' N; apply lookup_set_other; exact N]. Qed.
+Theorem C07_globals_stored : forall p st k,
+  glookup k (gs_map (gp_state st p)) = match latest k p with Some v => Some v | None => glookup k (gs_map st) end.
+Proof. exact lookup_after_program. Qed.
+(* the pattern object is deliberately shared state: after any program a cyclic object stands at (start + the number of reads that
+   reached it - through any name bound to it at that moment, by any reader) mod its length, so the readers take its values in
+   turn; sets and reads of other objects do not move it *)
+Theorem C07_globals_pattern_shared : forall p k d objs q vals pos,
+  latest k p = Some (GPat q) -> nth_error objs q = Some (mkPobj vals pos true) -> (pos < length vals)%nat ->
+  fst (gpread k d (gp_state (gstore0 objs) p)) = GVal (nth ((pos + reads_of q (gstore0 objs) p) mod length vals) vals 0)
+  /\ nth_error (gs_objs (gp_state (gstore0 objs) p)) q = Some (mkPobj vals ((pos + reads_of q (gstore0 objs) p) mod length vals) true).
+Proof. intros p k d objs q vals pos La F L. split; [apply read_pattern_value; assumption|apply object_after_program; assumption]. Qed.
+(* with numbers only it is the model of Sched/Static.v (C07_globals_latest) *)
+Theorem C07_globals_scalar_case : forall k d st, all_scalar (gs_map st) = true ->
+  fst (gpread k d st) = GVal (gget k d (scalar_map (gs_map st))).
+Proof. exact scalar_read_is_gget. Qed.
+
+(* non-vacuity: objects 0 = (1 2 3 ...) cyclic, 1 = (7 7 ...); name 5 := object 0, read twice; := 60 (number over pattern); := object 1
+   (pattern over number); := object 0 again (pattern over pattern: it continues where it stood); name 6 := object 0 too (two names,
+   one object); a name never set gives the default *)
+Example C07_globals_pattern_nonvacuous :
+  gp_run (gstore0 [pobj0 [1; 2; 3] true; pobj0 [7] true])
+    [GARead 5 (-1); GASet 5 (GPat 0); GARead 5 (-1); GARead 5 (-1); GASet 5 (GScalar 60); GARead 5 (-1); GASet 5 (GPat 1); GARead 5 (-1);
+     GASet 5 (GPat 0); GASet 6 (GPat 0); GARead 5 (-1); GARead 6 (-1); GARead 5 (-1); GARead 9 (-1)]
+  = [Some (GVal (-1)); None; Some (GVal 1); Some (GVal 2); None; Some (GVal 60); None; Some (GVal 7);
+     None; None; Some (GVal 3); Some (GVal 1); Some (GVal 2); Some (GVal (-1))].
+Proof. vm_compute. reflexivity. Qed.
